@@ -31,6 +31,12 @@ var skOnly = map[string][]string{
 	"Blocks/sq":  {"AppModule.BeginBlock"},
 	"Blocks/str": {"AppModule.EndBlock"},
 	"Blocks/lk":  {"AppModule.EndBlock", "EndBlocker"},
+	"Det/ms":     {"msgServer.TryFulfillOnDemand"},
+	"Det/str":    {"Keeper.UpdateDistrRecords"},
+	"Det/hf":     {"mapKeysToSlice"},
+	"Det/lk":     {"Keeper.InitializeAllLocks"},
+	"Det/rra":    {"ReverseResolvedDymNameAddress.String", "ReverseResolvedDymNameAddresses.Sort", "ReverseResolvedDymNameAddresses.Distinct"},
+	"Det/mod":    {"ModuleAccountAddrs"},
 }
 
 type skModule struct {
@@ -117,6 +123,14 @@ var skModules = []skModule{
 	{"Det", []skGroup{
 		{"cache", []string{"utils/cache/ordered.go"}},
 		{"lps", []string{"x/eibc/keeper/lps.go"}},
+		// the functions of the allow-listed consensus sites of C12 (loop, sort, and the caller that fills the PRNG seed)
+		{"ms", []string{"x/eibc/keeper/msg_server.go"}},
+		{"str", []string{"x/streamer/keeper/keeper_replace_update_distribution.go"}},
+		{"hf", []string{"x/rollapp/keeper/hard_fork.go"}},
+		{"lk", []string{"x/lockup/keeper/lock.go"}},
+		{"dmap", []string{"x/dymns/utils/map.go"}},
+		{"rra", []string{"x/dymns/types/reverse_resolved_dym_name_address.go"}},
+		{"mod", []string{"app/modules.go"}},
 	}},
 	// --- identifiers handed out in events / messages (C19) and the order type's own methods (C05)
 	{"EibcT", []skGroup{
